@@ -558,3 +558,12 @@ Proof.
     symmetry. apply orb_true_iff. rewrite !Z.eqb_eq. lia.
 Qed.
 
+
+(** a file cut inside its 44-byte header is an error *)
+Lemma truncated_header_lemma : forall sp frames k,
+  (4 <= k < 44)%nat -> sym_load (firstn k (encode sp frames)) = LErr.
+Proof.
+  intros sp frames k [H4 H44]. unfold encode.
+  set (d := enc_data (s_fmt sp) frames). set (dlen := Z.of_nat (length d)). set (X := d ++ pad dlen).
+  do 44 (destruct k as [|k]; [try lia; reflexivity|]). lia.
+Qed.
